@@ -348,4 +348,97 @@ pub fn regs(size: usize, out: &mut Out) {
             }
         }
     }
+    // (c) groups inside parameter *names*: dropping the group can make two names equal (`/{a(b)}/{a}`), make two
+    // parameters touch, empty a name, or leave an invalid one; every expansion has to pass every check
+    let grouped = ["{a(b)}", "{(b)a}", "{a(b)c}", "{*a(b)}", "{a(b):alpha}", "{(a)}", "{a(*)}", "{(*)a}", "{a(:alpha)}", "{a(/)b}", "{a}(b)", "{a(})/{b}"];
+    let plain = ["{a}", "{ab}", "{ac}", "{b}", "{*a}", "{a:alpha}"];
+    let glue = ["/", "-", "/x/", ""];
+    for g in grouped {
+        for q in plain {
+            for sep in glue {
+                if !out.mine() {
+                    continue;
+                }
+                for t in [format!("/{g}{sep}{q}"), format!("/{q}{sep}{g}")] {
+                    out.reset();
+                    out.new_router(0, KEYS);
+                    out.op(format!("parse {}", hex(t.as_bytes())));
+                    out.insert(0, &t, 3);
+                    out.display(0);
+                    for v in ["a", "ab", "b", "a/b", "a-b", "a/x/b", "abc"] {
+                        out.search(0, &format!("/{v}"));
+                    }
+                    out.delete(0, &t);
+                }
+            }
+        }
+    }
+}
+
+/// Sibling competition (C06, C03, C05, C18): two templates whose first parameter is of the same kind but differently
+/// named, so that one node has two parameter children of one kind; paths that fit both. A third, unrelated template whose
+/// parameter shares its segment with literal text is inserted and deleted again (it changes how the node's children are
+/// searched, and must change no result it does not fit), the battery is repeated in reverse order and from several threads
+/// (searching must not leave anything behind).
+pub fn sibs(size: usize, out: &mut Out) {
+    let kinds: &[(&str, &str, &[&str])] = &[
+        ("{a}", "{b}", &["{z}.y", "{z:alpha}-y"]),
+        ("{*a}", "{*b}", &["{*z}.y", "{*z:nota}~y"]),
+        ("{a:alpha}", "{b:alpha}", &["{z:alpha}-y", "{z}.y"]),
+        ("{*a:nota}", "{*b:nota}", &["{*z:nota}~y", "{*z}.y"]),
+    ];
+    let tails_all = ["/x", "/{c}", "", "/x/{c}", ".t", "/x/y"];
+    let tails = &tails_all[..(3 + size).min(tails_all.len())];
+    let prefixes_all = ["/", "/p/"];
+    let prefixes = &prefixes_all[..size.min(2).max(1)];
+    let vals = ["foo", "x", "y", "foo.t", "a"];
+    for (k1, k2, flippers) in kinds {
+        for t1 in tails {
+            for t2 in tails {
+                for pre in prefixes {
+                    for f in flippers.iter() {
+                        if !out.mine() {
+                            continue;
+                        }
+                        let a = format!("{pre}{k1}{t1}");
+                        let b = format!("{pre}{k2}{t2}");
+                        let fl = format!("{pre}{f}");
+                        let mut battery: Vec<String> = vec![];
+                        for v1 in vals {
+                            for tail in [t1, t2] {
+                                for v2 in ["x", "foo"] {
+                                    let p = format!("{pre}{v1}{}", tail.replace("{c}", v2));
+                                    if !battery.contains(&p) {
+                                        battery.push(p);
+                                    }
+                                }
+                            }
+                            battery.push(format!("{pre}{v1}/x/{v1}"));
+                        }
+                        out.reset();
+                        out.new_router(0, KEYS);
+                        out.insert(0, &a, 1);
+                        out.insert(0, &b, 2);
+                        for p in &battery {
+                            out.search(0, p);
+                        }
+                        out.insert(0, &fl, 3);
+                        for p in &battery {
+                            out.search(0, p);
+                        }
+                        out.delete(0, &fl);
+                        for p in battery.iter().rev() {
+                            out.search(0, p);
+                        }
+                        let hs: Vec<String> = battery.iter().map(|p| hex(p.as_bytes())).collect();
+                        out.op(format!("# psearch 0 4 {}", hs.join(" ")));
+                        for p in &battery {
+                            out.search(0, p);
+                        }
+                        out.display(0);
+                    }
+                }
+            }
+        }
+    }
 }
